@@ -1490,12 +1490,12 @@ def eval : Nat → Ctx → Frame → Expr → St → Res
             match primPath (canon fr.selfTy segs) with
             | some v => .val v st
             | none =>
-            -- [errors] BEGIN: a bare variant in the scope of a `use E::*;` of an enclosing block
-            match globPath ctx.enums st.env segs with
+            -- [errors] BEGIN: the dictionary first (as before); then a bare variant in the scope of a `use E::*;` of
+            -- an enclosing block (`globPath` scans the environment, so it comes last)
+            match ctx.ext.path (canon fr.selfTy segs) with
             | some v => .val v st
-            | none =>
+            | none => orStuck "path without a rule" (globPath ctx.enums st.env segs) fun v => .val v st
             -- [errors] END
-              orStuck "path without a rule" (ctx.ext.path (canon fr.selfTy segs)) fun v => .val v st
     | .field e name => (eval n ctx fr e st).bind fun v st => runField ctx v name st
     | .tupleIdx e i =>
       (eval n ctx fr e st).bind fun v st =>
